@@ -126,7 +126,7 @@ def run(facts, rep, tier):
         lf = facts.lambda_fn(l)
         if lf is None: continue
         if any(x.k == 'switch' for x in lf.nodes()): sw = (l, lf)
-        elif any(x.k == 'binop' and x.op in ('==', '||') for x in lf.nodes()): wm = (l, lf)
+        elif any(x.k == 'binop' and x.op in ('==', '||') for x in lf.nodes()) or (lf.d.get('ret') or '') == 'bool': wm = (l, lf)
     if sw is None:
         switches = [x for x in opn.nodes() if x.k == 'switch']
         if switches: sw = (None, opn)
@@ -185,6 +185,8 @@ def run(facts, rep, tier):
             clo = Closure(wm[0], wm[1], {c['decl']: ('val', Enum('tulz::File::Mode::' + m)) for c in wm[0].captures or [] if 'decl' in c and c.get('var') == 'mode'})
             vals = {P.ret if isinstance(P.ret, bool) else repr(P.ret) for P in ex.run_closure(clo, this_path=('this',))}
             want = m in WRITE_MODES
+            if not all(isinstance(x_, bool) for x_ in vals):
+                rep.inconclusive('FI.1', f'isWriteMode(Mode::{m})', wm[1].shortloc(), f'the predicate evaluates to {sorted(map(str, vals))[0][:80]}: not followed'); continue
             rep.check(vals == {want}, 'FI.1', f'isWriteMode(Mode::{m}) = {sorted(map(str, vals))}', wm[1].shortloc(), f'expected {want}: opening a missing file in this mode ' + ('fails with NotFound although the mode creates files' if want else 'silently proceeds'), key=f'FI.1|iswrite|{m}', fn=opn.name)
     # ---- FI.2 --------------------------------------------------------------------------------------------------------------
     for mode, exists, is_dir, is_open in itertools.product(['Read', 'Write'], [True, False], [True, False], [True, False]):
